@@ -35,6 +35,8 @@ GenClause(rec, s1) ==
     LET i == Decode(rec.op)
         len == IF i # 0 /\ NeedExpRow[i] THEN 2 ELSE 1 IN
     /\ s1.out \in {"ok", "unimpl"}
+    /\ (len = 1 => rec.x = 0)                      \* a vector of a one-word instruction carries no second word (C02: the
+                                                  \* generator sees the same form and length as the decoder)
     /\ s1.out = "ok" => /\ s1.r.pc = len
                          /\ \A j \in len + 1 .. Len(s1.acc) : InWindow(s1.acc[j][1])
 
